@@ -186,8 +186,7 @@ class Check(common.Check):
     N_QUICK = 1500
     N_THOROUGH = 40000
     ASSUMPTIONS = [
-        'alloc is called with n >= 1; free with None or any address below addr_offset+size '
-        '(an address >= addr_offset+size raises IndexError in the code and is outside the modelled domain)',
+        'alloc is called with n >= 1; free with None or ANY address (addresses outside the range are ignored)',
         'bi.choice(list(set)) is an arbitrary choice among the candidates (oracle index k); the real run '
         'uses the k-th candidate by start address, a second stream keeps the real random choice',
         'ContiguousBlockAllocator.reserve() and the other allocator classes are not modelled',
@@ -241,6 +240,8 @@ class Check(common.Check):
             elif r < 1 - 0.04:
                 if off and rng.random() < 0.4:      # an address below the client's range (e.g. a hardware bus)
                     ops.append(f'freeaddr {rng.randrange(max(0, off - size), off)}')
+                elif rng.random() < 0.25:               # an address above the client's range
+                    ops.append(f'freeaddr {off + size + rng.randrange(size + 1)}')
                 else:
                     ops.append(f'freeaddr {off + rng.randrange(size)}')
             elif r < 1 - 0.03:
